@@ -8,6 +8,8 @@
      "window"                 the same inside a larger matrix, logit_coords = [2, 2n+3]
      "unkwin"                 the same, logit_coords = [None, None]            (unknown frame window: whole matrix)
      "tight"                  n frames (alignable iff no two neighbouring labels are equal)
+     "tightwin"               the same n frames inside a larger matrix, logit_coords = [2, n+2] (as many frames in the window as
+                              characters, but more frames than characters in the stored matrix)
      "short"                  1 frame  (alignable iff n = 1)
      "nocoords"               logit_coords = None                              -> TypeError, caught: fallback branch
      "charsnone"              posteriors present, character table None        -> TypeError, caught: fallback branch
@@ -76,7 +78,7 @@ MinFrames(lab) == Len(lab) + Cardinality({i \in 1..(Len(lab) - 1) : lab[i] = lab
 HasChars(s)  == s \notin {"nochars", "charsnone"}
 HasLogits(s) == s \notin {"nochars", "nologits"}
 CoordsOK(s)  == s # "nocoords"
-Frames(s, n) == IF s = "short" THEN 1 ELSE IF s = "tight" THEN n ELSE 2 * n + 1
+Frames(s, n) == IF s = "short" THEN 1 ELSE IF s \in {"tight", "tightwin"} THEN n ELSE 2 * n + 1
 
 \* ---- input domain ------------------------------------------------------------------------------------
 LineKinds == {[text |-> t, sit |-> s] : t \in Strs, s \in Situations}
